@@ -15,6 +15,40 @@ def fuzz(target, seconds, **kw):
 
 
 PROPS = {
+    "C16": {
+        "rule": "cases: a generated clock and all 16 present/absent combinations of --start --end --since --step; instants "
+                "2001-2200 at s/ms/ns granularity spelled as unix seconds, unix nanoseconds, fractional seconds (1-3 decimals) or "
+                "RFC3339 (Z and numeric zones); Prometheus durations (1-3 descending units) and plain/fractional seconds; malformed "
+                "spellings and non-positive/NaN/Inf/sub-nanosecond steps; oracle: reference resolution written from the statement "
+                "(parseTimeRange/parseStep called directly), plus end-to-end runs of the cobra command against the fake daemon "
+                "where the requested since/until must equal floor(start)/floor(end) (wall clock bracketed by two reads); "
+                "non-trivial = 1-3 of the four flags given (defaults and explicit values mix) or a malformed value; distinct by case hash",
+        "assumptions": [
+            "--since given as a plain number is not generated (the statement names plain seconds only for --step)",
+            "a step written as fractional plain seconds may differ by 1ns (binary floating point)",
+            "a sub-nanosecond positive step may be rejected or rounded up, but must not resolve to a non-positive step silently",
+            "an explicitly empty flag value is not generated",
+        ],
+        "replay_test": "TestC16",
+        "quick": [rapid("TestC16", 5000, binary="cmdmain"), rapid("TestC16E2E", 300, binary="cmdmain", shard_base=100)],
+        "thorough": [rapid("TestC16", 40000, shards=8, binary="cmdmain", timeout=1800),
+                     rapid("TestC16E2E", 2500, binary="cmdmain", shard_base=100, timeout=1800)],
+    },
+    "C15": {
+        "rule": "cases: generated stream results (0-40 containers - well past the palette of 8 -, 0-52 entries, several streams per "
+                "container, streams without a container label, ms/ns/wide timestamps with deliberate ties (<=4 per instant), "
+                "messages with embedded/trailing CR/LF, ANSI sequences and arbitrary bytes) rendered by renderResult under all 8 "
+                "option combinations; oracle: the exact output bytes must be parseable as one expected line per entry in "
+                "non-decreasing timestamp order (ties may permute), colours consistent per container and from the palette, no "
+                "ESC without colour; non-trivial = >=9 distinct containers with colour on, or a timestamp tie, or an embedded "
+                "line break; distinct by case hash",
+        "assumptions": [
+            "whether the timestamp itself is coloured is not stated: one SGR sequence around it is accepted when colour is on",
+            "the time zone of the rendered timestamp is not stated: any RFC3339 text denoting exactly the entry's instant is accepted",
+        ],
+        "quick": [rapid("TestC15", 2500, binary="cmdmain")],
+        "thorough": [rapid("TestC15", 12000, shards=8, binary="cmdmain", timeout=1800)],
+    },
     "C04": {
         "rule": "cases: 0-6 fake containers with generated logs (empty, singletons, long, ties inside and across containers, "
                 "mostly time-ordered, 10% deliberately not) read through dockerlog.Querier.SelectLogs while the fake daemon "
